@@ -63,9 +63,16 @@ RecProgAt(nm, nxt, mode, place) ==
   IF mode = "local" THEN [i \in 1..nm |-> RecDefAt(i, nxt[i], FALSE, place[i])] \o <<Out(Call("r1", <<Lit(I(0))>>))>>
   ELSE [i \in 1..nm |-> [t |-> "import", file |-> "lib", name |-> RecName(i), as |-> RecName(i)]] \o <<Out(Call("r1", <<Lit(I(0))>>))>>
 RecFilesAt(nm, nxt, place) == [lib |-> [i \in 1..nm |-> RecDefAt(i, nxt[i], TRUE, place[i])]]
+\* modes "alias" / "both": the macros are imported under other names (z1..) - alone, or next to an import under their own names.
+\* The body of a macro runs in the scope it was imported into: under "alias" the names r1.. its body calls are bound to nothing there
+\* (the call prints nothing and the rendering ends after the first "."), under "both" they are bound and the recursion is runaway.
+AliasName(i) == <<"z1", "z2", "z3">>[i]
 RecProg(nm, nxt, mode) ==
-  IF mode = "local" THEN [i \in 1..nm |-> RecDef(i, nxt[i], FALSE)] \o <<Out(Call("r1", <<Lit(I(0))>>))>>
-  ELSE [i \in 1..nm |-> [t |-> "import", file |-> "lib", name |-> RecName(i), as |-> RecName(i)]] \o <<Out(Call("r1", <<Lit(I(0))>>))>>
+  CASE mode = "local" -> [i \in 1..nm |-> RecDef(i, nxt[i], FALSE)] \o <<Out(Call("r1", <<Lit(I(0))>>))>>
+    [] mode = "import" -> [i \in 1..nm |-> [t |-> "import", file |-> "lib", name |-> RecName(i), as |-> RecName(i)]] \o <<Out(Call("r1", <<Lit(I(0))>>))>>
+    [] mode = "alias" -> [i \in 1..nm |-> [t |-> "import", file |-> "lib", name |-> RecName(i), as |-> AliasName(i)]] \o <<Out(Call("z1", <<Lit(I(0))>>))>>
+    [] mode = "both" -> [i \in 1..nm |-> [t |-> "import", file |-> "lib", name |-> RecName(i), as |-> AliasName(i)]]
+                        \o [i \in 1..nm |-> [t |-> "import", file |-> "lib", name |-> RecName(i), as |-> RecName(i)]] \o <<Out(Call("z1", <<Lit(I(0))>>))>>
 RecFiles(nm, nxt) == [lib |-> [i \in 1..nm |-> RecDef(i, nxt[i], TRUE)]]
 
 \* kinds: a macro result is markup (not escaped again), also through set/with; arguments are escaped where they are printed
@@ -97,7 +104,7 @@ Init ==
               \E defs \in [1..n -> BOOLEAN], k \in 0..(n + 1) :
                  prog = SigProg(n, defs, k, mode) /\ files = SigFiles(n, defs)
        [] Family = "rec" ->
-            \E nm \in 1..3, mode \in {"local", "import"} :
+            \E nm \in 1..3, mode \in {"local", "import", "alias", "both"} :
               \E nxt \in [1..nm -> 1..nm] :
                  prog = RecProg(nm, nxt, mode) /\ files = RecFiles(nm, nxt)
        [] Family = "recplace" ->
@@ -111,7 +118,8 @@ Next == go = FALSE /\ go' = TRUE /\ UNCHANGED <<prog, files>>
 Res == RenderF(prog, Ctx, files)
 Balanced == go => (ScopesBalanced(Res) /\ DepthBalanced(Res))
 \* unbounded recursion always ends in an error, never in output
-RecursionBounded == (go /\ Family \in {"rec", "recplace"}) => Res.err # ""
+AliasOnly == prog[1].t = "import" /\ \A i \in 1..Len(prog) : prog[i].t = "import" => prog[i].as # prog[i].name
+RecursionBounded == (go /\ Family \in {"rec", "recplace"}) => IF AliasOnly THEN Res.err = "" ELSE Res.err # ""
 \* an imported macro behaves like the local one: same output (checked on the model for the signature family)
 ImportEqualsLocal ==
   (go /\ Family = "sig" /\ prog[1].t = "import" /\ prog[1].as = "m") =>
